@@ -43,7 +43,7 @@ for d in diffs:
     n = os.path.basename(d)[len("change"):-len(".diff")]
     demo = os.path.join(sdir, "demo%s" % n, "run.sh")
     meta = json.load(open(os.path.join(sdir, "meta%s.json" % n))) if os.path.exists(os.path.join(sdir, "meta%s.json" % n)) else {}
-    rec = {"id": "%s_%s" % (pid, n), "property": pid, "summary": meta.get("summary"), "needs": meta.get("needs"), "agent_tests": meta.get("tests")}
+    rec = {"id": "%s_%s" % (pid, n), "property": pid, "repo_head_at_confirmation": head[:7], "summary": meta.get("summary"), "needs": meta.get("needs"), "agent_tests": meta.get("tests")}
     # head of /repo may have moved since the agent's worktree was created
     ap = sh("git -C %s apply --check %s" % (WT, d))
     if ap.returncode != 0:
